@@ -243,10 +243,19 @@ func c14CheckBatch(run *vlib.Run, cases []schemaCase) (map[int][]vlib.Violation,
 		}
 		switch {
 		case res.NotAnExpression != "":
-			bad("not-an-expression:"+f+tag, "is not a Go expression: %s", res.NotAnExpression)
+			// (the two-builders tag only matters here: see c14TwoBuildersTag)
+			neTag := nestedTag(c) + c14VeneerTag(c) + c14TwoBuildersTag(c) + strings.TrimPrefix(tag, nestedTag(c)+c14VeneerTag(c))
+			bad("not-an-expression:"+f+neTag, "is not a Go expression: %s", res.NotAnExpression)
 			continue
 		case res.CompileError != "":
-			bad("converted-code-does-not-compile:"+f+":"+diagClass("go", res.CompileError)+tag, "does not compile: %s", res.CompileError)
+			cls, ctag := diagClass("go", res.CompileError), tag
+			if two := c14TwoBuildersTag(c); two != "" && strings.HasPrefix(cls, "not enough arguments in call") {
+				// the argument left empty by guards that match no builder (listed
+				// finding): `Links()` still parses, but does not compile
+				cls = "not enough arguments in call"
+				ctag = nestedTag(c) + c14VeneerTag(c) + two + strings.TrimPrefix(tag, nestedTag(c)+c14VeneerTag(c))
+			}
+			bad("converted-code-does-not-compile:"+f+":"+cls+ctag, "does not compile: %s", res.CompileError)
 			continue
 		case res.Panic != "":
 			bad("converted-code-panics:"+f+tag, "panics: %s", firstLine(res.Panic))
@@ -502,7 +511,7 @@ func c14PatchMulti(rt *rapid.T, m *smodel.Model, t smodel.T, v any, mb *c14Multi
 
 // c14VeneerTag marks the cases whose veneers promote an optional field.
 func c14VeneerTag(sc schemaCase) string {
-	return c14PromotedTag(sc) + c14TwoBuildersTag(sc)
+	return c14PromotedTag(sc)
 }
 
 // c14TwoBuildersTag marks the cases where the object with two builders also has
